@@ -71,7 +71,10 @@ type FuncContract struct {
 	Params   []string // assumed contracts: parameter names
 	Clock    bool     // result is a read of the monotone ghost clock
 	Unroll   map[int]int // loop ordinal -> unrolling bound (with unwinding assertion)
+	AcquiresLevelDeclared bool
+	AcquiresLevel int // lowest lock level this function may acquire (0: acquires no levelled lock)
 	Aliases  bool // results may alias the arguments at arbitrary offsets (keep slice offsets symbolic)
+	AssumeAtLock []*Clause
 	Unverified bool
 	UnverifiedWhy string
 }
@@ -222,6 +225,14 @@ func (cs *Contracts) LoadContractFile(path, pkg string, repoStyle bool) error {
 			cur.Props = strings.Fields(rest)
 		case "params":
 			cur.Params = strings.Fields(strings.ReplaceAll(rest, ",", " "))
+		case "assume-at-lock":
+			// a fact about the guarded state, assumed right after the function's first Lock; an
+			// assumption (listed in the evidence), e.g. an ownership argument that is not mechanised
+			e, err := ParseExpr(rest)
+			if err != nil {
+				return perr(err)
+			}
+			cur.AssumeAtLock = append(cur.AssumeAtLock, &Clause{Kind: kw, Props: props, Name: label, Expr: e, Src: rest, File: path, Line: lineNo})
 		case "requires", "ensures":
 			if cur == nil {
 				return perr(fmt.Errorf("%s outside func", kw))
@@ -268,6 +279,13 @@ func (cs *Contracts) LoadContractFile(path, pkg string, repoStyle bool) error {
 			cur.Assumed = true
 		case "aliases":
 			cur.Aliases = true
+		case "acquires-level":
+			n, err := strconv.Atoi(rest)
+			if err != nil {
+				return perr(err)
+			}
+			cur.AcquiresLevel = n
+			cur.AcquiresLevelDeclared = true
 		case "unverified":
 			// body not (yet) checked against this contract: used at call sites as an assumption
 			cur.Unverified = true
